@@ -1,19 +1,21 @@
 from common import COMMON_TB
 
 CFG = {
-    "technique": "Lean 4 theorem: after every chain-consistent history of store calls (reorgs included) Balance = the C01 sentence on the store's records (representation invariant proved for every operation incl. insertMinedTx and rollback) + run-time check of the Ledger specification on generated consistent histories + differential run of the real wtxmgr.Store against the model with an independent Go ledger oracle",
-    "level_text": "C01_balance: for every history of store calls satisfying chain consistency (Call.Pre, read on the store at each call: a tx is confirmed in one block, one block per height, parents first, < 2^32-1 outputs) starting from the empty store - unconfirmed/confirmed inserts with redelivery, credits, abandonments, Rollback to ANY height, reconnects, leases, sweeps, any clock values - and every instant, maturity, minConf, syncHeight: Balance (counter + three correction passes over three buckets) equals the C01 formula evaluated on the store's records. Built from C01_inv_reachable (WF2 preserved by every operation: wf2_insertMinedTx, wf2_addCredit_mined, wf2_rollback, unconfirmed/lease ops) and C01_balance_inv. C01_utxos_sound/_complete: UnspentOutputs lists exactly the unspent-index entries and unconfirmed credits that are neither leased nor spent by an unconfirmed tx, with value, confirming block and coinbase flag of the recorded transaction.",
-    "level_note": "PARTIAL only in the last link: the refinement store-records = Ledger (storeTruth = Ledger.balance, step_repr) is not proved; it is checked at run time on every generated history (ops `spec probe` vs `probe`: Lean spec = Lean model = real Go), as are the executable forms of the invariants (op `inv`). ConfirmPre.ucValid (the unconfirmed credits kept under a hash are outputs of that tx) is a precondition read on the store, not yet an invariant. Former finding F6 (zero-value credits) is fixed in /repo 7fa9939. The lease clock is constant during one Balance call.",
+    "technique": "Lean 4 refinement proof: after EVERY chain-consistent history of events (reorgs included) the wtxmgr model refines the five-minute specification Ledger, hence Balance = Ledger.balance and UnspentOutputs = Ledger.utxos (theorems, no bounds) + run-time check of the same relation on generated histories (ops refcheck/reffuzz) + differential run of the real wtxmgr.Store against the model with an independent Go ledger oracle",
+    "level_text": "C01_balance_ledger: for every chain-consistent history of events from the empty wallet (unconfirmed/confirmed deliveries with redelivery, block disconnections to ANY height and reconnections, abandonments, leases, releases, sweeps, clock moves), every store call succeeds and, for every coinbase maturity, minConf and syncHeight, Balance = Ledger.balance of the ledger after the history = the sum of the credited outputs of known transactions that no known transaction spends, that are not leased, have >= minConf confirmations and (if coinbase) >= maturity confirmations. C01_utxos_ledger: UnspentOutputs lists, each once, exactly the credited outputs no known transaction spends and that are not leased, with amount, confirming block (height, hash, time / none) and coinbase flag (compared as a set: Perm). C01_balance_refines: the same on any pair (store, ledger) in the simulation relation. Store level (kept): C01_balance (Balance = formula on the store records along every history of store calls), C01_utxos_sound/_complete.",
+    "level_note": "No _partial left for C01. The refinement (Lemmas/Ref*.lean, ~6800 lines) proves per event: seen, abandoned (removeConflict = descendant closure), confirmed (insertMinedTx + credits + removeDoubleSpends + lease release), disconnected (rollback: main loop invariant over the detached transactions, block deletion, coinbase clean-up), lease/release/sweep/clock; good_history composes them. The lease clock is constant during one Balance call. OutputsToWatch = Ledger.watchSet is checked at run time only (op watch / spec watch).",
     "lean_props": ["BtcwVerif.Props.C01"],
     "engines": ["txstore"],
     "trusted_base": COMMON_TB + [
         "hand-written model BtcwVerif/Model/TxStore.lean of wtxmgr/{tx,unconfirmed,query,db}.go (tied by the differential run incl. full bucket dumps)",
         "BtcwVerif/Model/Ledger.lean (specification) is cross-checked against an independent Go implementation of the same sentences (harness/engines/txstore/oracle.go)",
         "bbolt: ordered buckets with unique keys, atomic Update (C11's assumption)",
+        "Lemmas/Ref*.lean: simulation relation Good = WF2 (store invariant) + LWF (ledger well-formedness) + Refines (bucket by bucket: find? k = some v <-> (k,v) in the ledger's expectation Ledger.exp...; executable form refinesB evaluated by the driver after every event: ops refcheck / reffuzz)",
     ],
     "assumptions": [
         "amounts/heights are unbounded integers in the model (no int64/int32 overflow)",
         "hashes identify transactions; block heights >= 0",
         "credited amounts >= 0",
+        "chain consistency of the next event = TxStore.Consistent: Ledger.consistent (one block per height, a tx confirmed in one block, no confirmed double spend, no duplicated input, parents delivered first and confirmed at or below their children, coinbases never unconfirmed, redelivery allowed, conflicting unconfirmed txs may coexist) + Ledger.extra (an input naming a known tx names one of its outputs; no unconfirmed tx conflicting with a confirmed one is delivered; `abandoned` names the unconfirmed tx with that hash) + a tx has < 2^32-1 outputs and does not spend an output of itself",
     ],
 }
